@@ -932,7 +932,7 @@ impl Arena {
       return Err(Error::ReadOnly);
     }
 
-    if mem::size_of::<T>() == 0 {
+    if mem::size_of::<T>() == 0 && (extra == 0 || mem::align_of::<T>() == 1) {
       return self.alloc_bytes_in(extra);
     }
 
